@@ -195,6 +195,7 @@ func runC11(c *Check) {
 			map[string]bool{"storage.(*TxRepository).Load": true, "storage.NewTxRepository": true, "storage.newUnconfirmedTx": true, "storage.readUnconfirmedTx": true})
 	}
 	c.ruleRemoveOnlyWhenEmpty("R7")
+	c.ruleWriteOnlyWhatSerialized("R8")
 }
 
 // relax marks reader loops that run until the input is exhausted as matching an uncounted writer
